@@ -25,7 +25,7 @@ from rustscan import Lost  # noqa: E402
 REPO = os.environ.get('VERIF_REPO', '/repo')
 BUILD = os.path.join(ROOT, 'build')
 CACHE = os.path.join(ROOT, '.cache')
-EVID = os.path.join(ROOT, 'evidence')
+EVID = os.path.join(ROOT, 'evidence') if REPO == '/repo' else os.path.join(ROOT, 'build', 'evidence-scratch')
 REPLAYS = os.path.join(ROOT, 'replays')
 VERUS_VERSION = '0.2026.09.13'
 
@@ -497,8 +497,21 @@ def main():
         rp = json.load(open(args.replay))
         print(json.dumps(rp, indent=1)[:6000])
         ci = rp.get('concrete_input')
+        for v in rp.get('failed_obligations', []):
+            c = v.get('concrete') or {}
+            if c.get('kani_playback_test') and v['obligation'].startswith('kani:'):
+                import kani_runner
+                unit = v['obligation'][5:].split('::')[0]
+                out = kani_runner.replay(unit, c['kani_playback_test'], REPO)
+                print(json.dumps(out, indent=1))
+                if out.get('exit'):
+                    print('VIOLATION property=%s replay=%s' % (rp['property'], args.replay))
+                    sys.exit(1)
+                sys.exit(0)
         if ci and ci.get('cmd'):
             p = subprocess.run(ci['cmd'], shell=True)
+            if p.returncode:
+                print('VIOLATION property=%s replay=%s' % (rp['property'], args.replay))
             sys.exit(1 if p.returncode else 0)
         # no concrete input: re-run the check, the named obligations are re-evaluated on the current tree
     props = sorted(reg['properties']) if args.prop == 'all' else [args.prop]
